@@ -169,9 +169,10 @@ def digest_cases(rng, ad, tr):
     if tr == "thorough":
         res += [("32b", rb(32)), ("32c-lead0", b"\x00" + rb(31)), ("short2", rb(rng.randrange(2, 31))), ("long2", rb(rng.randrange(34, 64))),
                 ("ff32", b"\xff" * 31 + b"\xfe"), ("empty", b"")]
-    out = [(lab, d.hex(), 0) for lab, d in res]
+    n = int(P256N, 16)
+    # ECDSA: the library refuses integers >= N and Sign then waits for its context: keep that wait short
+    out = [(lab, d.hex(), 6000 if ad == "ecdsa" and len(d) >= 32 and int.from_bytes(d[:32], "big") >= n else 0) for lab, d in res]
     if ad == "ecdsa":
-        n = int(P256N, 16)
         out.append(("N-1", "%064x" % (n - 1), 0))
         # the library refuses integers >= N: Sign never returns a signature (it waits for its context), keep the wait short
         out.append(("N", P256N, 6000))
@@ -300,7 +301,7 @@ def plan_for(tr, rng, tabs, wd):
         plan.session("eddsa", ids, thr, signs=signs, tag="baseline")
         small = ids == list(range(1, len(ids) + 1))
         if big:
-            share = 1.0 if len(ids) <= 3 and small or (ids, thr) == ([1, 2, 3, 4], 3) else (0.6 if ids == [1, 2, 3, 4] else (0.5 if len(ids) <= 3 else 0.25))
+            share = 1.0 if len(ids) <= 3 and small or (ids, thr) == ([1, 2, 3, 4], 3) else (0.6 if ids == [1, 2, 3, 4] else (0.35 if len(ids) <= 3 else 0.15))
         else:
             share = 1.0 if ids == [1, 2] else (0.5 if (ids, thr) == ([1, 2, 3], 1) else (0.25 if small else 0.12))
         cap = 0 if (big or small) else 9
@@ -373,6 +374,7 @@ def plan_for(tr, rng, tabs, wd):
 # ------------------------------------------------------------------------------------------------------------------
 
 _retried = []
+_retried_info = {}
 
 
 def run_driver(job, wd, tag, timeout):
@@ -396,6 +398,7 @@ def run_driver(job, wd, tag, timeout):
                 skipped.append(o["t"])
             elif o["e"] == "retried":
                 retried.append(o["t"])
+                _retried_info[o["t"]] = {k: o.get(k) for k in ("ph", "ad", "finished", "emits", "handed")}
             else:
                 traces.setdefault(o["t"], []).append(o)
     complete = {t: ev for t, ev in traces.items() if ev and ev[0]["e"] == "reset" and ev[-1]["e"] == "end"}
@@ -646,8 +649,13 @@ def execute(pid, plan, wd, verdict, tr):
             e["runs"] += 1
             e["completed"] += 1 if ends.get(t, {}).get("completed") else 0
     stats["id_sets"] = idsets
+    # first attempts in which some party had finished while others starved (the signature of lost messages) vs. nobody finished
+    some_finished = [t for t in _retried if _retried_info.get(t, {}).get("finished")]
     stats["retry_statistics"] = dict(runs=by_n, first_attempt_unfinished=retried_by_n,
-                                     of_which_completed_when_repeated=len(recovered))
+                                     of_which_completed_when_repeated=len(recovered),
+                                     first_attempts_where_a_party_had_finished=len(some_finished),
+                                     first_attempts_where_nobody_had_finished=len(_retried) - len(some_finished),
+                                     details=[dict(_retried_info.get(t, {}), trace=t, ids=(plan.meta.get(t) or {}).get("ids")) for t in _retried][:12])
     log("adapters: runs by adapter/size %s; first attempt unfinished %s" % (by_n, retried_by_n or "never"))
     stats["traces"] = len(all_traces)
     stats["events"] = sum(len(v) for v in all_traces.values())
